@@ -8,12 +8,12 @@ import (
 
 // Term is an SMT term: BV of width W (W>0) or Bool (W==0).
 type Term struct {
-	Op   string
-	W    int
-	Args []*Term
-	Val  uint64 // for const
-	Name string // for var
-	id   int
+	Op    string
+	W     int
+	Args  []*Term
+	Val   uint64 // for const
+	Name  string // for var
+	id    int
 	evGen int64 // evaluation cache (eval.go): generation stamp and value
 	evVal uint64
 }
@@ -40,9 +40,9 @@ func B(b bool) *Term {
 	return t
 }
 func V(name string, w int) *Term { t := mkT("var", w); t.Name = name; return t }
-func (t *Term) IsConst() bool  { return t.Op == "const" || t.Op == "bconst" }
-func (t *Term) True() bool     { return t.Op == "bconst" && t.Val == 1 }
-func (t *Term) False() bool    { return t.Op == "bconst" && t.Val == 0 }
+func (t *Term) IsConst() bool    { return t.Op == "const" || t.Op == "bconst" }
+func (t *Term) True() bool       { return t.Op == "bconst" && t.Val == 1 }
+func (t *Term) False() bool      { return t.Op == "bconst" && t.Val == 0 }
 
 func sx(v uint64, w int) int64 {
 	if w >= 64 {
